@@ -93,6 +93,13 @@ class PublicS(Case):
     rtol = 1e-6
     query_timeout = 120000
 
+    @property
+    def concrete(self):
+        c = self.params.get("exps")
+        if not c:
+            return None
+        return {f"{t}e{k}": v for t, vs in zip("ABCD", c) for k, v in enumerate(vs)}
+
     def inputs(self, mk):
         p = self.params
         return dict(specs=[shell_spec(mk, "ABCD"[i], l, K, M) for i, (l, K, M) in enumerate(zip(p["ls"], p["Ks"], p["Ms"]))])
